@@ -197,41 +197,103 @@ func runC22(c *core.Ctx) {
 	type quot struct {
 		call           *ssa.Call
 		subFee, modded bool
+		isUint         bool // the call itself is the uint64 number of units (a helper that divides and converts)
 	}
 	var quots []quot
 	nq := 0
-	core.Instrs(fn, func(in ssa.Instruction) {
-		v, isV := in.(ssa.Value)
-		if !isV {
-			return
-		}
-		call, name := bigM(v)
-		if call == nil || (name != "Div" && name != "Quo") || len(call.Call.Args) != 3 {
-			return
-		}
+	addQuot := func(call *ssa.Call, dividend, price ssa.Value, divisorText string, isUint bool) {
 		nq++
 		c.Sites++
 		construct := fmt.Sprintf("%s/quotient#%d", fname(fn), nq)
-		o, subFee := derived(call.Call.Args[1], map[ssa.Value]bool{})
+		o, subFee := derived(dividend, map[ssa.Value]bool{})
 		c.Check(o, "C22/dividend-from-available", construct, call.Pos(),
 			"the dividend derives from balance - value by subtractions",
-			"the dividend "+core.ExprKey(call.Call.Args[1])+" is not derived from Sub(balance, tx.GetValue()) by subtractions: the estimate spends what the transfer itself needs")
-		// divisor: SetUint64(price)
-		price := ssa.Value(nil)
-		if d, dn := bigM(call.Call.Args[2]); d != nil && dn == "SetUint64" {
-			price = stripConv(d.Call.Args[1])
-		}
+			"the dividend "+core.ExprKey(dividend)+" is not derived from Sub(balance, tx.GetValue()) by subtractions: the estimate spends what the transfer itself needs")
 		plain := price != nil && (onTx(price, "GetGasPrice") || ownOnTx(price, "GasPriceForMove"))
 		modded := price != nil && ownOnTx(price, "GasPriceForProcessing")
 		c.Check(plain || modded, "C22/divisor-is-the-gas-price", construct, call.Pos(),
 			"the divisor is the transaction's gas price (plain or for processing)",
-			"the divisor "+core.ExprKey(call.Call.Args[2])+" is not the transaction's gas price: gas bought = amount / price is the only inverse of fee = gas x price")
+			"the divisor "+divisorText+" is not the transaction's gas price: gas bought = amount / price is the only inverse of fee = gas x price")
 		if modded {
 			c.Check(subFee, "C22/reduced-price-only-for-the-rest", construct, call.Pos(),
 				"the processing price divides what is left after the move-balance fee",
 				"the amount divided by the modifier-reduced processing price has not had the move-balance fee subtracted: the move-balance part of the gas is charged at the full price, so the estimated limit costs more than the amount available")
 		}
-		quots = append(quots, quot{call, subFee, modded})
+		quots = append(quots, quot{call, subFee, modded, isUint})
+	}
+	// priceOf: the uint64 price a *big.Int divisor was made from (SetUint64)
+	priceOf := func(divisor ssa.Value) ssa.Value {
+		if d, dn := bigM(divisor); d != nil && dn == "SetUint64" {
+			return stripConv(d.Call.Args[1])
+		}
+		return nil
+	}
+	// quotHelper: a function of the package whose only result is Div(_, dividendParam, SetUint64(_, priceParam)),
+	// possibly converted with Uint64(): a call of it is a quotient of its arguments
+	quotHelper := func(call *ssa.Call) (dividend, price ssa.Value, isUint, ok bool) {
+		h := call.Call.StaticCallee()
+		if h == nil || h.Blocks == nil || h.Pkg != fn.Pkg || h.Signature.Results().Len() != 1 {
+			return
+		}
+		rets := core.Returns(h)
+		if len(rets) != 1 {
+			return
+		}
+		rv := core.RetOperand(rets[0], 0)
+		if u, name := bigM(rv); u != nil && name == "Uint64" {
+			rv, isUint = u.Call.Args[0], true
+		}
+		d, name := bigM(rv)
+		if d == nil || (name != "Div" && name != "Quo") || len(d.Call.Args) != 3 {
+			return
+		}
+		paramArg := func(v ssa.Value) ssa.Value {
+			for i, p := range h.Params {
+				if ssa.Value(p) == v && i < len(call.Call.Args) {
+					return call.Call.Args[i]
+				}
+			}
+			return nil
+		}
+		dividend = paramArg(d.Call.Args[1])
+		if pv := priceOf(d.Call.Args[2]); pv != nil {
+			if a := paramArg(pv); a != nil {
+				price = stripConv(a)
+			}
+		} else if a := paramArg(d.Call.Args[2]); a != nil {
+			price = priceOf(a)
+		}
+		// nothing else in the helper touches the operands
+		extra := false
+		core.Instrs(h, func(in ssa.Instruction) {
+			if v, isV := in.(ssa.Value); isV {
+				if bc, bn := bigM(v); bc != nil && bc != d && bn != "SetUint64" && bn != "Uint64" {
+					extra = true
+				}
+			}
+		})
+		ok = dividend != nil && price != nil && !extra
+		if ok {
+			c.Analysed(fname(h))
+		}
+		return
+	}
+	core.Instrs(fn, func(in ssa.Instruction) {
+		v, isV := in.(ssa.Value)
+		if !isV {
+			return
+		}
+		if hc, isCall := v.(*ssa.Call); isCall {
+			if dividend, price, isUint, ok := quotHelper(hc); ok {
+				addQuot(hc, dividend, price, core.ExprKey(price), isUint)
+				return
+			}
+		}
+		call, name := bigM(v)
+		if call == nil || (name != "Div" && name != "Quo") || len(call.Call.Args) != 3 {
+			return
+		}
+		addQuot(call, call.Call.Args[1], priceOf(call.Call.Args[2]), core.ExprKey(call.Call.Args[2]), false)
 	})
 	c.Floor("C22/dividend-from-available", 1)
 
@@ -285,6 +347,18 @@ func runC22(c *core.Ctx) {
 		var q *quot
 		moveGas, other := false, ""
 		for _, t := range terms {
+			viaHelper := false
+			for i := range quots {
+				if quots[i].isUint && ssa.Value(quots[i].call) == t {
+					if q != nil {
+						other = "two quotients"
+					}
+					q, viaHelper = &quots[i], true
+				}
+			}
+			if viaHelper {
+				continue
+			}
 			if u, name := bigM(t); u != nil && name == "Uint64" {
 				for i := range quots {
 					if ssa.Value(quots[i].call) == u.Call.Args[0] {
